@@ -10,12 +10,12 @@ pub(crate) struct DuplicateEnumVariantId {
     duplicate: LitInt,
     first: Span,
     enum_ident: Option<Ident>,
-    free_id: u32,
+    free_id: Option<u32>,
 }
 
 impl DuplicateEnumVariantId {
     pub(crate) fn validate(vars: &[EnumVariant], ident: Option<&Ident>, validate: &mut Validate) {
-        let mut max_id = vars
+        let mut max_id: u32 = vars
             .iter()
             .filter_map(|var| var.id().value().parse().ok())
             .max()
@@ -26,8 +26,8 @@ impl DuplicateEnumVariantId {
                 .filter(|var| var.id().value().parse::<u32>().is_ok()),
             |var| var.id().value(),
             |duplicate, first| {
-                max_id += 1;
-                let free_id = max_id;
+                let free_id = max_id.checked_add(1);
+                max_id = free_id.unwrap_or(max_id);
                 validate.add_error(Self {
                     schema_name: validate.schema_name().to_owned(),
                     duplicate: duplicate.id().clone(),
@@ -68,7 +68,10 @@ impl Diagnostic for DuplicateEnumVariantId {
                 .context(schema, self.first, "first defined here");
         }
 
-        report = report.help(format!("use a free id, e.g. {}", self.free_id));
+        if let Some(free_id) = self.free_id {
+            report = report.help(format!("use a free id, e.g. {free_id}"));
+        }
+
         report.render()
     }
 }
